@@ -10,6 +10,7 @@ import (
 	"context"
 	"fmt"
 	"os"
+	"sort"
 	"strings"
 	"testing"
 	"time"
@@ -81,6 +82,47 @@ func c10Scenarios() []hpScenario {
 	return out
 }
 
+// c10Causes names the failure causes a scenario scripts (sorted, '+'-joined), "none" for pure successes.
+func c10Causes(sc *hpScenario) string {
+	set := map[string]bool{}
+	for _, r := range sc.Requests {
+		for _, a := range r.Script {
+			switch a {
+			case upClose:
+				set["upstream-close"] = true
+			case upSilent:
+				set["timeout"] = true
+			case upReply5xx, upReplyBusy:
+				set["error-reply"] = true
+			}
+		}
+	}
+	if sc.RetryOn {
+		set["retry-policy"] = true
+	}
+	if sc.DownDisconnect {
+		set["client-disconnect"] = true
+	}
+	if len(sc.FailHosts)+len(sc.TimeoutHosts) > 0 {
+		set["connect-failure"] = true
+	}
+	if sc.EjectFirstHost {
+		set["host-ejected"] = true
+	}
+	if len(sc.Requests) > 1 && !sc.Sequential {
+		set["concurrent"] = true
+	}
+	var l []string
+	for k := range set {
+		l = append(l, k)
+	}
+	sort.Strings(l)
+	if len(l) == 0 {
+		return "none"
+	}
+	return strings.Join(l, "+")
+}
+
 type c10Mon struct {
 	min map[string]int64
 	max map[string]int64
@@ -120,8 +162,11 @@ func c10Run(p *vreport.Part, sc hpScenario, replay bool) bool {
 		p.Eval()
 		cc := sc
 		cc.Choices = r.Choices
+		// finding keys carry the failure causes scripted in the scenario and the number of scheduling
+		// deviations the failing schedule needed: the same counter can be broken on different paths
+		causes := c10Causes(&sc)
 		report := func(kind, detail string) {
-			p.Violation(kind, "scenario "+sc.Name+": "+detail+fmt.Sprintf(" | log=%v schedule=%v", obs.Log, r.Choices), cc)
+			p.Violation(fmt.Sprintf("%s; causes=%s deviations=%d", kind, causes, r.Cost), "scenario "+sc.Name+": "+detail+fmt.Sprintf(" | log=%v schedule=%v", obs.Log, r.Choices), cc)
 		}
 		if r.Diverged != "" || r.StepLimit || len(r.Panics) > 0 || r.Deadlock {
 			report("HARNESS execution did not complete normally", r.String()+strings.Join(r.Panics, "\n"))
